@@ -74,6 +74,38 @@ def run(ctx):
                         bad[ident].append(src[i] if i < len(src) else {"index": i})
             for e in (meta.get("timing_errors") or []) + (meta.get("accept_errors") or []):
                 ob_failed.append("harness scenario could not run: " + e)
+            # Wall-clock measurements on a shared machine: a scenario that fails is run again, alone,
+            # up to two more times; only a failure that reproduces every time is reported (a real
+            # defect is deterministic, a descheduled client or proxy goroutine is not).
+            retried = {}
+            for attempt in (1, 2):
+                names = sorted({x["scenario"]["name"] for k in bad for x in bad[k] if "scenario" in x})
+                if not names or ctx.replay:
+                    break
+                rdir = os.path.join(ctx.work, "retry%d" % attempt)
+                os.makedirs(rdir, exist_ok=True)
+                rc2, out2 = common.sh([hb, "-seed", str(ctx.seed), "-tier", ctx.tier, "-out", rdir, "-only", ",".join(names)], timeout=900)
+                if rc2 != 0:
+                    break
+                m2 = json.load(open(os.path.join(rdir, "meta.json")))
+                res2 = ctx.coq_eval_shards(GROUP, rdir, m2["shards"], idents=("M", "P", "MA", "PA"))
+                tj2 = load_jsonl(os.path.join(rdir, "tcases.jsonl"))
+                aj2 = load_jsonl(os.path.join(rdir, "acases.jsonl"))
+                still = {k: [] for k in bad}
+                for shard in m2["shards"]:
+                    r2 = res2.get(shard) or {}
+                    for ident in bad:
+                        src2 = tj2 if ident in ("M", "P") else aj2
+                        for i in (ctx.parse_nlist(r2.get(ident)) or []):
+                            if i < len(src2):
+                                still[ident].append(src2[i])
+                for ident in bad:
+                    before = {x["scenario"]["name"] for x in bad[ident] if "scenario" in x}
+                    keep = [x for x in still[ident] if x["scenario"]["name"] in before]
+                    for n in before - {x["scenario"]["name"] for x in keep}:
+                        retried[n] = retried.get(n, 0) + 1
+                    bad[ident] = keep
+            meta["not_reproduced_on_rerun"] = sorted(retried)
 
     def tkey(t):
         sc = t["scenario"]
@@ -141,7 +173,8 @@ def run(ctx):
             "modelled, not verified: Go timers / context deadlines / net.Conn read deadlines fire exactly at the deadline and "
             "computation takes no time (tested with the stated tolerance); crypto/tls and net address getters delegate to the "
             "wrapped connection; goroutine scheduling",
-            "wall-clock behaviour is TESTED, not proved: limits scaled to %s ms, lateness tolerance %s ms, earliness tolerance 10 ms"
+            "wall-clock behaviour is TESTED, not proved: limits scaled to %s ms, lateness tolerance %s ms, earliness tolerance 10 ms; "
+            "a failing scenario is re-run alone twice and reported only if it fails every time"
             % (json.dumps(meta.get("lim")), meta.get("tol_ms")),
         ]),
         "theorems": info["theorems"],
@@ -158,7 +191,7 @@ def run(ctx):
         "model_mismatches": len(bad["M"]) + len(bad["MA"]),
         "property_failures_on_impl": len(bad["P"]) + len(bad["PA"]),
         "distribution": {k: meta.get(k) for k in ("by_phase", "by_stack", "closed_observed", "not_closed_observed",
-                                                   "max_stalled_peers", "lim", "tol_ms", "wall_ms")},
+                                                   "max_stalled_peers", "lim", "tol_ms", "wall_ms", "not_reproduced_on_rerun")},
         "samples": meta.get("samples"),
     }
     ctx.finish("proof", coverage, [
